@@ -90,7 +90,7 @@ class Gen:
         elif c < 0.8:
             opd = ['flatten_lazy']
         elif c < 0.9:
-            opd = ['levels', r.choice([0, 1, 2, 3]), r.choice(['list', 'list', 'tuple'])]
+            opd = ['levels', r.choice([0, 1, 2, 3]), r.choice(['list', 'list', 'tuple', 'int', 'str'])]
         else:
             opd = ['merge', r.choice(['dict', 'dict', 'odict'])]
         if opd[0] == 'levels' and opd[1] == 0:
